@@ -8,6 +8,6 @@ class CommaOperator(Operator):
 
     def solve_operand(self, left: Any, right: Any) -> Any:
         if isinstance(left, list):
-            return left.append(right)
+            return [*left, right]
 
         return [left, right]
